@@ -313,3 +313,139 @@ func TestVerifC11Faults(t *testing.T) {
 }
 
 var _ = time.Now
+
+// ------------------------------------------------------------------ credentials with several status entries
+
+// multiEntrySweep: credentials of the foreign issuer with 2 and 3 credentialStatus entries, drawn in every order from
+// {revocation on list A index i, revocation on list A index j, revocation on list B, suspension-purpose entry,
+// entry of an unknown type}, with the revoked entry at each position (and none revoked as control). Oracle unchanged:
+// a revocation-purpose entry whose bit is set in the list it names => verification fails as revoked.
+func multiEntrySweep(t *testing.T, r *ev.Run) {
+	build(t, r, "fresh", nil, func(w *world) {
+		w.start = "multi-entry"
+		ext := did.MustParseDID("did:web:external.example")
+		w.enrol(ext)
+		now := vtime.Now()
+		type entry struct {
+			name, list string // list: A | B | "" (no list involved)
+			index      int
+			purpose    string
+			typ        string
+		}
+		alphabet := []entry{
+			{"revocation-A-i", "A", 3, "revocation", revocation.StatusList2021EntryType},
+			{"revocation-A-j", "A", 7, "revocation", revocation.StatusList2021EntryType},
+			{"revocation-B", "B", 5, "revocation", revocation.StatusList2021EntryType},
+			{"suspension", "S", 3, "suspension", revocation.StatusList2021EntryType},
+			{"unknown-type", "", 0, "", "OtherStatus2099"},
+		}
+		var combos [][]int
+		var rec func(cur []int)
+		rec = func(cur []int) {
+			if len(cur) >= 2 {
+				combos = append(combos, append([]int{}, cur...))
+			}
+			if len(cur) == 3 {
+				return
+			}
+			for i := range alphabet {
+				used := false
+				for _, c := range cur {
+					used = used || c == i
+				}
+				if !used {
+					rec(append(cur, i))
+				}
+			}
+		}
+		rec(nil)
+		verify := func(cred vc.VerifiableCredential) string {
+			at := vtime.Now()
+			err := w.V.ver.Verify(cred, true, true, &at)
+			switch {
+			case err == nil:
+				return "ok"
+			case errors.Is(err, types.ErrRevoked):
+				return "revoked"
+			}
+			return "error: " + err.Error()
+		}
+		serial, cases := 0, 0
+		for ci, combo := range combos {
+			// variant -1: nothing revoked (control); variant p: the entry at position p has its bit set
+			for variant := -1; variant < len(combo); variant++ {
+				if variant >= 0 && alphabet[combo[variant]].purpose != "revocation" {
+					continue
+				}
+				serial++
+				base := fmt.Sprintf("https://external.example/multi/%d/%d/", ci, variant+1)
+				bits := map[string]map[int]bool{"A": {}, "B": {}, "S": {3: true}} // the suspension list has its bit set: it must be ignored
+				if variant >= 0 {
+					e := alphabet[combo[variant]]
+					bits[e.list][e.index] = true
+				}
+				var statuses []any
+				var names []string
+				for _, ai := range combo {
+					e := alphabet[ai]
+					names = append(names, e.name)
+					if e.list == "" {
+						statuses = append(statuses, map[string]any{"id": base + "other#1", "type": e.typ})
+						continue
+					}
+					statuses = append(statuses, revocation.StatusList2021Entry{ID: fmt.Sprintf("%s%s#%d", base, e.list, e.index), Type: e.typ,
+						StatusPurpose: e.purpose, StatusListIndex: strconv.Itoa(e.index), StatusListCredential: base + e.list})
+				}
+				for _, l := range []string{"A", "B", "S"} {
+					purpose := "revocation"
+					if l == "S" {
+						purpose = "suspension"
+					}
+					tmpl := w.listTemplate(ext, base+l, purpose, bits[l], now)
+					body, _ := json.Marshal(w.signLD(tmpl, kidOf(ext), now))
+					sl := &servedList{Body: string(body), URL: base + l, Kind: "external", Bits: bits[l]}
+					w.served[sl.Body] = sl
+					w.http.override[base+l] = sl
+				}
+				id := ssi.MustParseURI(fmt.Sprintf("%s#7a7ad0c4-1d9c-4b8e-9d0a-%012d", ext.String(), serial))
+				tmpl := vc.VerifiableCredential{
+					Context:      []ssi.URI{vc.VCContextV1URI(), testContext, revocation.StatusList2021ContextURI},
+					Type:         []ssi.URI{vc.VerifiableCredentialTypeV1URI(), humanType},
+					ID:           &id,
+					Issuer:       ext.URI(),
+					IssuanceDate: now,
+					CredentialSubject: []interface{}{map[string]interface{}{"id": holder,
+						"human": map[string]interface{}{"eyeColour": "blue"}}},
+					CredentialStatus: statuses,
+				}
+				b, _ := json.Marshal(w.signLD(tmpl, kidOf(ext), now))
+				cred, err := vc.ParseVerifiableCredential(string(b))
+				if err != nil {
+					t.Fatalf("harness: %v", err)
+				}
+				cases++
+				got := verify(*cred)
+				w.hist = []event{{Op: "verify", K: fmt.Sprintf("credential with status entries %v, bit set for entry %d (0 = none)", names, variant+1)}}
+				if variant < 0 {
+					if got != "ok" {
+						t.Fatalf("harness: control credential with entries %v (nothing revoked) does not verify: %s", names, got)
+					}
+					r.Eval("")
+					continue
+				}
+				r.Eval(fmt.Sprintf("multi-entry|%v|%d", names, variant))
+				r.Outcome("several status entries, one revoked: " + strings.SplitN(got, ":", 2)[0])
+				if got == "ok" {
+					w.violation("revocation-not-effective", fmt.Sprintf("multi-entry|entries=%d|revoked-position=%d", len(combo), variant+1),
+						fmt.Sprintf("the credential has status entries %v; the bit of entry %d (%s) is set in the list it names and node V fetched that list, yet verification succeeds", names, variant+1, alphabet[combo[variant]].name))
+				} else if got != "revoked" {
+					r.Observation("revoked-credential-fails-with-other-error", got)
+				}
+			}
+		}
+		if cases < 150 {
+			t.Fatalf("harness: only %d multi-entry cases", cases)
+		}
+		r.Bound("multi_entry_credentials", cases)
+	})
+}
